@@ -176,6 +176,7 @@ fn pick_positions(n_in: usize, len: usize, n: usize, rng: &mut ChaCha8Rng) -> Ve
 #[allow(clippy::too_many_arguments)]
 pub fn soundness_stage<C: Circuit<F>>(
     name: &str,
+    api: &str,
     desc: &Json,
     k: u32,
     circuit: &C,
@@ -199,7 +200,7 @@ pub fn soundness_stage<C: Circuit<F>>(
             "reference_evaluator": reference_ok, "mock": format!("{mock:?}"), "nodes": nodes, "start": kind});
         if reference_ok && matches!(mock, Ok(true)) {
             rep.violation(
-                &format!("{prop}/{name}/forged-output"),
+                &format!("{prop}/{name}/forged-output@{api}"),
                 &format!("adversarial assignment ({} changed cells) makes the hash circuit accept a wrong digest at position {} (reference evaluator and MockProver accept)", changed.len(), pos - n_in),
                 w,
             );
@@ -220,7 +221,7 @@ pub fn soundness_stage<C: Circuit<F>>(
             tables.instance[1][pos] = old;
             if sat {
                 rep.violation(
-                    &format!("{prop}/{name}/edited-output-accepted"),
+                    &format!("{prop}/{name}/edited-output-accepted@{api}"),
                     &format!("honest witness accepted with digest position {} edited", pos - n_in),
                     json!({"case": desc, "position": pos - n_in, "value": hexf(&tv)}),
                 );
@@ -373,6 +374,14 @@ pub fn check_raw<O: RawOp>(cases: &[(O, O::In)], opts: &SoundOpts, rng: &mut Cha
         }
         let fails = tables.violations(4);
         if !fails.is_empty() {
+            // re-execute the case once before reporting (BUILDERS.md): a failure that does not
+            // reproduce is harness non-determinism, not a verdict
+            let again = catch_any(|| collect::<F, _>(k, &circuit, &[vec![], exp.clone()], CollectOpts::default()));
+            let reproduced = matches!(&again, Ok(Ok(t2)) if !t2.violations(1).is_empty());
+            if !reproduced {
+                rep.inconclusive(&format!("{label}: honest-run failure did not reproduce on re-execution"));
+                continue;
+            }
             let (sat_with_bound, bound) = classify_honest_failure(&mut tables, &exp);
             let w = json!({"case": desc, "k": k, "circuit_binds": bound.iter().map(hexf).collect::<Vec<_>>(), "reference": exp.iter().map(hexf).collect::<Vec<_>>(),
                            "failures": format!("{fails:?}")});
@@ -403,7 +412,7 @@ pub fn check_raw<O: RawOp>(cases: &[(O, O::In)], opts: &SoundOpts, rng: &mut Cha
         if rep.samples.len() < rep.max_samples {
             rep.sample(json!({"op": label, "k": k, "case": desc, "assigned_advice_cells": tables.assigned_advice_cells().len()}));
         }
-        soundness_stage(&name, &desc, k, &circuit, &mut tables, &exp, n_in, opts, rng, rep, &mut st);
+        soundness_stage(&name, &api, &desc, k, &circuit, &mut tables, &exp, n_in, opts, rng, rep, &mut st);
     }
     st
 }
